@@ -175,7 +175,7 @@ func runC03(t *testing.T, seed uint64, m *Mask) *Report {
 				e.Fail("infra-session-setup", "ServeConn: %v", st)
 				return
 			}
-			x.key = cb.RemoteAddr().String()
+			x.key = world.SessKey(x.sess)
 			simrt.GoNamed(fmt.Sprintf("rawreader%d", s), func() {
 				for {
 					msg := x.raw.Read()
